@@ -48,20 +48,20 @@ theorem ExpTerm.edgesAt_perm (t : ExpTerm α) (L : Nat) (hok : t.OK L) (lab : Ke
           unfold ExpTerm.bodyEdges ExpTerm.lc
           by_cases hs : k ∈ t.subsites <;> by_cases hst : k ∈ t.subsitesStart
           · simp only [List.contains_eq_mem, hs, hst, decide_true, if_true, Bool.not_true, Bool.false_eq_true,
-              if_false, h3.2, and_self, true_and, hk, List.nil_append, List.append_nil,
+              if_false, h3.2, and_self, hk, List.nil_append, List.append_nil,
               List.cons_append]
             exact (List.perm_append_comm (l₁ := [_, _]) (l₂ := [_]))
           · simp only [List.contains_eq_mem, hs, hst, decide_true, decide_false, if_true, Bool.not_true,
-              Bool.false_eq_true, if_false, h3.2, and_self, true_and, false_and, hk,
+              Bool.false_eq_true, if_false, h3.2, and_self, false_and, hk,
               List.nil_append, List.append_nil, List.cons_append]
             exact List.Perm.refl _
           · simp only [List.contains_eq_mem, hs, hst, decide_true, decide_false, if_true, Bool.not_false,
-              Bool.false_eq_true, if_false, h3.2, and_self, true_and, false_and, hk,
+              Bool.false_eq_true, if_false, h3.2, and_self, false_and, hk,
               List.nil_append, List.append_nil, List.cons_append]
             exact List.Perm.refl _
-          · simp only [List.contains_eq_mem, hs, hst, decide_true, decide_false, if_true, Bool.not_false,
-              Bool.false_eq_true, if_false, h3.2, and_self, true_and, false_and, hk,
-              List.nil_append, List.append_nil, List.cons_append]
+          · simp only [List.contains_eq_mem, hs, hst, decide_false, if_true, Bool.not_false,
+              Bool.false_eq_true, if_false, h3.2, and_self, false_and, hk,
+              List.nil_append, List.append_nil]
             exact List.Perm.refl _
         · have c1 : ¬ (k ∈ t.subsitesStart ∧ k < t.last) := by
             rintro ⟨a, b⟩
